@@ -141,7 +141,9 @@ type c03Case struct {
 	ObsError string            `json:"observed_error,omitempty"`
 }
 
-var c03Hosts = []string{"api.example.com", "www.example.com", "example.org", "host.test:8080", "10.0.0.1", "deep.sub.example.com"}
+// the last ones differ from a configured expression only in letter case / by a character that case folding equates
+var c03Hosts = []string{"api.example.com", "www.example.com", "example.org", "host.test:8080", "10.0.0.1", "deep.sub.example.com",
+	"API.example.com", "Example.ORG", "api.example.com."}
 
 var c03HostMatchers = []rconfig.HostMatcher{
 	{Type: "exact", Value: "api.example.com"},
@@ -157,6 +159,33 @@ var c03HostMatchers = []rconfig.HostMatcher{
 
 // decoded segment values for single wildcards
 var c03SegVals = []string{"v1", "a b", "x%y", "ü", "a+b", "k=v", "A.B-C_D~", ":c", "*s", "1234", "né", "semi;colon"}
+
+// nearMiss changes the case of one letter, or replaces a 'k'/'s' by the Kelvin sign / long s, which Unicode case folding
+// treats as equal to them.
+func nearMiss(rng *rand.Rand, v string) string {
+	rs := []rune(v)
+	var idx []int
+	for i, r := range rs {
+		if r >= 'a' && r <= 'z' || r >= 'A' && r <= 'Z' {
+			idx = append(idx, i)
+		}
+	}
+	if len(idx) == 0 {
+		return v
+	}
+	i := idx[rng.IntN(len(idx))]
+	switch r := rs[i]; {
+	case r == 'k' || r == 'K':
+		rs[i] = '\u212a'
+	case r == 's':
+		rs[i] = '\u017f'
+	case r >= 'a' && r <= 'z':
+		rs[i] = r - 32
+	default:
+		rs[i] = r + 32
+	}
+	return string(rs)
+}
 
 func encodeSeg(rng *rand.Rand, s string, withSlash bool) string {
 	mode := rng.IntN(4)
@@ -376,6 +405,9 @@ func (g *gen) c03Request(rl c03Rule) (c03Req, []string, []string) {
 			v := c03SegVals[rng.IntN(len(c03SegVals))]
 			if pool := rt.capPool[s.Name]; len(pool) > 0 && rng.IntN(5) != 0 {
 				v = pool[rng.IntN(len(pool))]
+				if rng.IntN(8) == 0 {
+					v = nearMiss(rng, v) // almost the value the path_params expression asks for
+				}
 			}
 			if withSlash && rng.IntN(6) == 0 {
 				v = "sl/ash"
